@@ -45,7 +45,7 @@ def main():
     per = max(1, runs // jobs)
     cmd = [exe, f"-runs={per}", f"-seed={seed}", f"-max_len={max_len}", "-len_control=0", f"-artifact_prefix={work}/artifacts/", f"-jobs={jobs}", f"-workers={jobs}", work + "/corpus"]
     r = subprocess.run(cmd, cwd=work, env=dict(env, VERIF_ROOT=ROOT), stdout=subprocess.PIPE, stderr=subprocess.STDOUT, text=True)
-    out = r.stdout
+    out = ""
     for i in range(jobs):
         try:
             out += open(f"{work}/fuzz-{i}.log").read()
